@@ -129,6 +129,47 @@ def run(ctx):
             cases.append(("formula×junk×ops×index×case×decoration", pre + r["s"] + post, ("ok", k, neg), False))
             ctx.dist("formula:deco=" + repr((pre, post)))
 
+        # 2b. decorated ABBREVIATED spellings (round 10, E3; theorems C16_abbrev_formula … C16_abbrev_decorated quantify over
+        # all of them): each of the 60 (abbreviation, key) pairs of Spec.abbrevPairs (58 single-letter forms + `x=y` + `y=x`)
+        # × every decoration of the specification × random admissible styles (junk, case, index digits, `<=`/`==`), rendered by
+        # the driver's Spec.renderAbbrev; expected = the pair's key and the decoration's negation flag
+        abbrev_pairs = [(a, k, bare) for a, k, bare in T["abbrevPairs"]]
+        assert len(abbrev_pairs) == 60 and len({b for _, _, b in abbrev_pairs}) == 60, "abbrevPairs: 58 + 2 distinct bare forms"
+        n_ab = 1 if ctx.tier == "quick" else 25
+        reqs, meta = [], []
+        for a, k, bare in abbrev_pairs:
+            for deco in decorations + [None] * 4:
+                for _ in range(n_ab):
+                    junk = []
+                    for i in range(8):
+                        ln = rng.choice([0, 0, 1, 1, 2, 3])
+                        junk.append("".join(rng.choice(JUNK_POOL) for _ in range(ln)))
+                    style = {
+                        "up": [rng.random() < 0.4 for _ in range(4)],
+                        "idx": [rng.choice([None, None, 1, 2, rng.randrange(10)]) for _ in range(4)],
+                        "ops": [rng.choice("ca") for _ in range(3)],
+                        "junk": junk,
+                    }
+                    reqs.append({"op": "c16.renderAbbrev", "key": k, "abbrev": a, "style": style})
+                    meta.append((a, k, bare, deco))
+        rendered = drv.batch(reqs)
+        for (a, k, bare, deco), r in zip(meta, rendered):
+            assert r["junkOk"] and r["applies"], (a, k)
+            if deco is None:  # white-space variants of the markers: exercised only (the theorems fix the literal space)
+                pre, post = rng.choice(ws_markers)
+                neg = True
+                stream = "abbreviation×junk×ops×index×case×white-space variants of the negation markers"
+            else:
+                pre, post, neg = deco
+                stream = "abbreviation×junk×ops×index×case×decoration"
+            s_ab = pre + r["s"] + post
+            if stated_negation(s_ab) is not neg:  # the decoration's flag IS the property's "carries `!`, `not ` or ` not`"
+                ctx.broken.append("spec:abbreviation decoration flag ≠ stated negation")
+                ctx.notes.append({"spec-flag-disagreement": s_ab, "flag": neg, "stated": stated_negation(s_ab)})
+            cases.append((stream, s_ab, ("ok", k, neg), False))
+            ctx.dist("abbrev:kind=" + a)
+            ctx.dist("abbrev:deco=" + repr((pre, post)))
+
         # 3. arbitrary strings over the model alphabet, and mutated spellings
         n_arb = 4000 if ctx.tier == "quick" else 400000
         toks = ["x", "y", "<", "=", "≤", "<=", "==", " ", "not", "is", "!", "x1", "y2", "(", ")", "after", "in", "n", "X", "Y", "\t", "_", "is ", " not"]
@@ -160,10 +201,14 @@ def run(ctx):
         ctx.cov["rule"] = (
             "spelling streams: every key/name/abbreviation × every decoration of the specification, formula spellings of all "
             "162 keys × 8 operator-style triples with random junk/indices/case rendered by the driver's Spec.renderFormula; "
+            "abbreviated spellings: the 60 (abbreviation, key) pairs of Spec.abbrevPairs (58 single-letter forms, x=y, y=x) × the 18 "
+            "decorations (+ white-space variants of the markers) × random junk/indices/case/operator styles rendered by the driver's "
+            "Spec.renderAbbrev; "
             "arbitrary stream: random and mutated strings over the model alphabet. A case is non-trivial when it is not a bare "
             "canonical key (some rewriting, decoration or junk applied); distinct = distinct strings."
         )
         n_dis = 0
+        n_ab_samples = 0
         for (stream, s, expected, trivial), m in zip(cases, models):
             real = real_call(np_mod, cs, s)
             mo = model_out(m)
@@ -201,6 +246,9 @@ def run(ctx):
                     ctx.notes.append({"corr-disagreement": s, "impl": real, "model": mo})
             if stream.startswith("formula") and len(ctx.cov["samples"]) < 3 and rng.random() < 0.01:
                 ctx.sample({"input": s, "expected": expected, "impl": real, "model": mo})
+            if stream.startswith("abbreviation×junk") and n_ab_samples < 3 and rng.random() < 0.01:
+                n_ab_samples += 1
+                ctx.sample({"input": s, "expected": expected, "impl": real, "model": mo})
         ctx.sample({"input": "  Is NOT  y1 < x1 == (X2) <= y2 ", "impl": real_call(np_mod, cs, "  Is NOT  y1 < x1 == (X2) <= y2 "),
                     "model": model_out(drv.call("c16.model", s="  Is NOT  y1 < x1 == (X2) <= y2 "))})
         ctx.sample({"input": "x>y", "impl": real_call(np_mod, cs, "x>y"), "model": model_out(drv.call("c16.model", s="x>y"))})
@@ -225,7 +273,8 @@ def run(ctx):
         "hand-written model NP.normalize of normalize_predicate.py (Model/NormalizePredicate.lean): lower/strip/\\s/\\b are modelled on "
         "ASCII + '≤' '…' only; its agreement with the Python on the model alphabet is established by this differential run",
         "the name dictionary is the translator-generated table (see C08)",
-        "Spec/NormalizePredicate.lean: the grammar of tolerated spellings (formula styles, case masks, decorations, abbreviations)",
+        "Spec/NormalizePredicate.lean: the grammar of tolerated spellings (formula styles, case masks, decorations, abbreviations, "
+        "renderAbbrev/Abbrev.applies: which letters an abbreviation keeps)",
     ]
     ctx.cov["proved"] = [
         "C16_total", "C16_canonical", "C16_names", "C16_abbrev",
@@ -234,13 +283,19 @@ def run(ctx):
         "_is_prefix_not_suffix / _is_not_suffix / _not_is / _bang_is / _bang_is_suffix (every formula spelling, unbounded junk, "
         "any case of `not`/`is`, any outer whitespace; no side condition on the adjacent junk is needed)",
         "C16_formula_decorated (each of the 18 decorations of Spec.NP.decorations around every formula spelling)",
+        "C16_abbrev_all, C16_abbrev_covers (the 58 + 2 bare abbreviations; they are the undecorated Spec.renderAbbrev)",
+        "C16_abbrev_expands (the code's expansion step sends the salvaged abbreviated spelling to the key, as the full spelling)",
+        "C16_abbrev_formula / _bang / _not_prefix / _not_suffix / _is_prefix / _is_suffix / _is_not / _is_prefix_not_suffix / "
+        "_is_not_suffix / _not_is / _bang_is / _bang_is_suffix / _decorated (every abbreviated spelling of every key that has one: "
+        "unbounded junk, either case, index digits, `<=`/`==`, any case of `not`/`is`, any outer whitespace)",
         "C16_name_case / C16_name_mask (19 names, every case mask, any outer whitespace)",
         "C16_name_decorated (19 names x 12 lower-case decorations, every case of every letter, any outer whitespace)",
         "C16_name_spec_decorated (19 names x the 18 decorations of Spec.NP.decorations x every case mask)",
     ]
     ctx.cov["exercised_only"] = [
         "decorated NAME spellings with extra whitespace between the decoration word and the name (e.g. `not   after`), and "
-        "whitespace other than the single literal space next to `not`/`is` (e.g. `not\\tx<...`): differential run only, not a theorem",
+        "whitespace other than the single literal space next to `not`/`is` (e.g. `not\\tx<...`, also around abbreviated spellings): "
+        "differential run only, not a theorem",
         "Unicode beyond the model alphabet (implementation-only stream: no exception other than ValueError)",
     ]
     ctx.assumptions += ["model alphabet: ASCII 0x09-0x0D, 0x20-0x7E, '≤', '…'"]
